@@ -165,7 +165,7 @@ impl Router {
     /// 2) Call appropriate handler based on message id.
     /// 3) Remove handler once channel closes.
     fn run(&mut self) {
-        loop {
+        'event_loop: loop {
             // Wait for events to come from our select() new channels are added to
             // our ReceiverSet below.
             let results = match self.ipc_receiver_set.select() {
@@ -186,16 +186,23 @@ impl Router {
                                 self.handlers.insert(new_receiver_id, handler);
                             },
                             RouterMsg::Shutdown(sender) => {
+                                // Stop for good: drop every callback (and what it owns) before
+                                // acknowledging, and leave the event loop, not just this batch.
+                                self.handlers.clear();
                                 sender
                                     .send(())
                                     .expect("Failed to send comfirmation of shutdown.");
-                                break;
+                                break 'event_loop;
                             },
                         }
                     },
                     // Event from one of our registered receivers, call callback.
                     IpcSelectionResult::MessageReceived(id, message) => {
                         self.handlers.get_mut(&id).unwrap()(message)
+                    },
+                    // The RouterProxy was dropped: nobody can talk to us any more.
+                    IpcSelectionResult::ChannelClosed(id) if id == self.msg_wakeup_id => {
+                        break 'event_loop;
                     },
                     IpcSelectionResult::ChannelClosed(id) => {
                         let _ = self.handlers.remove(&id).unwrap();
